@@ -210,6 +210,34 @@ def gen_paths():
     if len(P) != 5:
         T.fail(REL, sp, "shortest_path does not take (mesh, start, targets, weights, export_path_mesh)")
     mesh, start, targets, weights, export = P
+    # ---- `if isinstance(targets, <types>): targets = {targets} else: targets = set(targets)`
+    st0 = None
+    for st in sp.body:
+        if isinstance(st, ast.If) and isinstance(st.test, ast.Call) and _is_name(st.test.func, "isinstance"):
+            st0 = st
+            break
+    if st0 is None or len(st0.test.args) != 2 or not _is_name(st0.test.args[0], targets):
+        T.fail(REL, sp, "`if isinstance(targets, ...)` not found at the top of shortest_path")
+    tyn = st0.test.args[1]
+    tys = [T.dotted(e) for e in (tyn.elts if isinstance(tyn, ast.Tuple) else [tyn])]
+    acc_py = acc_np = False
+    for ty in tys:
+        if ty == "int":
+            acc_py = True
+        elif ty in ("np.integer", "numpy.integer", "np.int64", "numpy.int64"):
+            acc_np = True
+        elif ty in ("numbers.Integral", "Integral"):
+            acc_py = acc_np = True
+        else:
+            T.fail(REL, tyn, "unrecognised type in isinstance(targets, ...): %s" % ty)
+    b0, e0 = st0.body, st0.orelse
+    ok0 = (len(b0) == 1 and isinstance(b0[0], ast.Assign) and _is_name(b0[0].targets[0], targets)
+           and isinstance(b0[0].value, ast.Set) and len(b0[0].value.elts) == 1 and _is_name(b0[0].value.elts[0], targets)
+           and len(e0) == 1 and isinstance(e0[0], ast.Assign) and _is_name(e0[0].targets[0], targets)
+           and isinstance(e0[0].value, ast.Call) and _is_name(e0[0].value.func, "set")
+           and len(e0[0].value.args) == 1 and _is_name(e0[0].value.args[0], targets))
+    if not ok0:
+        T.fail(REL, st0, "target normalisation is not `targets = {targets}` / `targets = set(targets)`")
     A, B, C = _weights_chain(sp, weights)
     sel = []
     selname = None
@@ -258,6 +286,9 @@ def gen_paths():
     g = []
     g.append("(* ---- shortest_path: `edge_length = lambda ...` per weight mode, called as edge_length(%s) *)"
              % ", ".join(argn(i) for i in call_args))
+    g.append("(* a target given singly is wrapped into a set when isinstance(targets, (%s)); otherwise set(targets) is taken *)" % ", ".join(tys))
+    g.append("Definition single_accepts_pyint : bool := %s." % ("true" if acc_py else "false"))
+    g.append("Definition single_accepts_npint : bool := %s." % ("true" if acc_np else "false"))
     g.append("Definition sp_call_arity : nat := %d." % call_arity)
     g.append("Definition sp_one_arity : nat := %d." % len(p1))
     g.append("Definition sp_length_arity : nat := %d." % len(p2))
